@@ -104,7 +104,7 @@ WIDTH_ALPHABET = {
     "config24-once+16bit-same-value": [("F", 24, IDENT24), ("F", 16, IDENT24 & 0xFFFF)],
     "query+24bit-same-value": [("F", 16, QAL1), ("F", 24, QAL1)],
 }
-ALL_KINDS = dict(ALPHABET, **QUIRK_ALPHABET, **ENUM_ALPHABET, **WIDTH_ALPHABET)
+ALL_KINDS = dict(ALPHABET, **QUIRK_ALPHABET, **ENUM_ALPHABET, **WIDTH_ALPHABET, **{"fill-map": [("M",)]})
 
 
 def row_flags(desc):
@@ -266,8 +266,10 @@ def make_trid_world(kinds, nsubs=0, own=None, with_map=False, perm=True):
                 w.driver.bus_traffic.register(lambda drv, c, r, e: w.traffic_batches.append((id(c), w.loop.batches)))
             if with_map:
                 m = DeviceInstanceTypeMapper()
-                m.add_type(short_address=5, instance_number=1, instance_type=3)
+                if with_map != "late":
+                    m.add_type(short_address=5, instance_number=1, instance_type=3)
                 w.driver.dev_inst_map = m
+                w.the_map = m
         w.build = build
         base_extra = w.extra_events
 
@@ -477,10 +479,12 @@ def make_serial_world(driver, kinds, nsubs, with_map, own=None):
     def make():
         from dalimc.aio.serialworld import SerialWorld, luba_rx_event, sci_frame
         from dali.device.helpers import DeviceInstanceTypeMapper
-        items = [it for kd in kinds for it in ALL_KINDS[kd] if it[0] in ("F", "B")]
+        items = [it for kd in kinds for it in ALL_KINDS[kd] if it[0] in ("F", "B", "M")]
         frames = []
         for it in items:
-            if it[0] == "F":
+            if it[0] == "M":
+                frames.append(None)        # not a gateway report: the application fills the (same) instance map at this point
+            elif it[0] == "F":
                 nb = it[1] // 8
                 fb = list(it[2].to_bytes(nb, "big"))
                 if driver == "luba":
@@ -511,8 +515,10 @@ def make_serial_world(driver, kinds, nsubs, with_map, own=None):
             base_build()
             if with_map:
                 m = DeviceInstanceTypeMapper()
-                m.add_type(short_address=5, instance_number=1, instance_type=3)
+                if with_map != "late":
+                    m.add_type(short_address=5, instance_number=1, instance_type=3)
                 w.driver.dev_inst_map = m
+                w.the_map = m
         w.build = build
         w.effective = []
 
@@ -522,9 +528,18 @@ def make_serial_world(driver, kinds, nsubs, with_map, own=None):
                 w.effective.append(item)
                 w.delivered += 1        # counted when the receiver has actually processed the frame
 
+        def fill_map(item):
+            w.the_map.add_type(short_address=5, instance_number=1, instance_type=3)
+            w.effective.append(item)
+            w.delivered += 1
+
         def d1():
             n = len(w.items) - len(w.gateway.observe)
-            w.loop.inject(rx, w.gateway.observe.pop(0), tuple(w.items[n]))
+            data = w.gateway.observe.pop(0)
+            if data is None:
+                w.loop.inject(fill_map, tuple(w.items[n]))
+            else:
+                w.loop.inject(rx, data, tuple(w.items[n]))
         w._deliver1 = d1
 
         def d0():
@@ -603,10 +618,18 @@ def judge_serial(res, cfg, w, obs):
         return ("exception",)
     if w.gateway.observe or len([i for i in fitems if i in [tuple(x) for x in w.items]]) < len(w.items):
         raise RuntimeError(f"HARNESS: history {cfg['kinds']} was not delivered completely ({len(fitems)} of {len(w.items)} items; trace {w.trace[-12:]})")
-    exp_all, _ = ref_buswatch(fitems, maptype, pairing=False)
+    real = [it for it in fitems if it[0] != "M"]
+    exp_all, _ = ref_buswatch(real, maptype, pairing=False)
     exp_all = norm(exp_all[0])
     # index of the forward frames among the delivered items
     fpos = [i for i, it in enumerate(fitems) if it[0] == "F"]
+    if cfg.get("with_map") == "late":
+        # frames received before the application filled the map are decoded with the map as it was then (no entry)
+        before, _ = ref_buswatch(real, "nomap", pairing=False)
+        before = norm(before[0])
+        mpos = [i for i, it in enumerate(fitems) if it[0] == "M"]
+        cut = mpos[0] if mpos else len(fitems)
+        exp_all = [before[j] if i < cut else exp_all[j] for j, i in enumerate(fpos)]
     observe(res, f"{drv}_reports", sum(len(v) for v in w.qlogs.values()))
     observe(res, f"{drv}_extra_subscriber_reports", sum(len(v) for k2, v in w.qlogs.items() if k2 != 0))
     for k, log in w.qlogs.items():
@@ -865,6 +888,9 @@ def shards(tier):
                 out.append(("serial", drv, hs[i:i + 150], 0, 0, False))
         out.append(("serial", drv, sel + [("unknown16", "plain"), ("edt+plain", "unknown16")], 2, 2 if tier == "quick" else 3, False))
         out.append(("serial", drv, [("event-devinst",), ("event-devinst", "unknown24"), ("edt+ext", "event-devinst")], 1, 0, True))
+        # the SAME map object, empty at first and filled by the application between two receptions of the same frame
+        out.append(("serial", drv, [("event-devinst", "fill-map", "event-devinst"), ("event-devinst", "event-devinst", "fill-map", "event-devinst", "plain", "event-devinst"),
+                                    ("fill-map", "event-devinst"), ("event-devinst", "fill-map"), ("edt+ext", "event-devinst", "fill-map", "edt+ext", "event-devinst")], 1, 1, "late"))
         out.append(("serial", drv, [("plain",), ("edt+ext",), ("unknown16",)], 1, 0, False, "own"))
     for drv in ("luba", "sci"):
         for first in range(len(SUB_OPS)):
